@@ -26,7 +26,7 @@ CHECKS = {
     "C03": ("fault_enumeration", "fault injection into generated multi-flow scenes, each fault run compared with the fault-free run of the same scene by the output oracle (run completes; bystanders' packets identical; victim exports at most a prefix/subsequence of its ground truth)",
             "Per scene every fault of each kind is enumerated where the space is small (every packet deletion, every truncation point of the victim, every key-log "
             "subset for TLS 1.3/QUIC, the key log cut inside a line, eight unknown suite ids, all 256 values of the ciphertext byte that controls the padding length of a protected CBC record) "
-            "and sampled where it is not (bit flips, overwrites, foreign UDP payloads over all first bytes and lengths 1..8); the repository's real captures get faults at every payload-carrying packet. "
+            "every bit of the structural octets of the victim's hellos and of the invariant long-header octets of a QUIC victim's first datagrams, snap lengths incl. those inside the link-layer header, keep-alive probes and retransmissions that start inside an earlier segment) and sampled where it is not (bit flips, overwrites, foreign UDP payloads over all first bytes and lengths 1..8); the repository's real captures get faults at every payload-carrying packet. "
             "The real run() is executed per fault; crash signatures observed are listed in the evidence (none on the repaired tree).",
             TRUST + "; the scene's fault-free run must itself be exact", "3/C03"),
     "C04": ("exploration", "metamorphic runtime oracle over interleavings: per-connection exported packets of the merged capture == whole output of the capture filtered to that connection",
@@ -36,11 +36,11 @@ CHECKS = {
     "C05": ("exploration", "runtime monitor on the real Session.handle_tls_record (record list handed over == sender's record list, exactly once, in order) over exhaustively enumerated deliveries + end-to-end stream equality under perturbed delivery",
             "Real Session objects are fed real packets; for short streams every cut set, every single/double duplicate insertion and every bounded displacement is "
             "enumerated (tens of thousands of delivery histories per quick run), including sequence-number wrap at every offset; full end-to-end runs repeat the relation "
-            "with real cipher suites, with 300-5000-segment deliveries and with the re-cut TCP streams of the repository's real captures. Exhaustive only for the short streams enumerated.",
+            "with real cipher suites, with 300-5000-segment deliveries, with TCP Fast Open (data on the SYN / SYN-ACK), with segments captured after the peer's reply to them, and with the re-cut TCP streams of the repository's real captures. Exhaustive only for the short streams enumerated.",
             TRUST, "3/C05"),
     "C06": ("exploration", "strict independent output oracle (own pcapng reader, frame parser with checksum verification, TCP reassembler) applied to outputs of a record-length x carrying-packet grid and of arbitrary/hostile inputs under random option sets",
             "Every output produced is read by an independent strict reader; the n x k grid checks the re-split rule (at most k segments, concatenation = record), the any-input "
-            "part covers decryptable, partly and not decryptable captures, foreign traffic, damage, empty captures, legacy pcap and all option combinations.",
+            "part covers decryptable, partly and not decryptable captures, foreign traffic, damage (flips, snap lengths, runt frames, stale segments), empty and interface-less captures, captures of several interfaces incl. active non-Ethernet ones, legacy pcap and all option combinations.",
             "trusted: vlib.outparse (validated at setup on malformed and well-formed files)", "3/C06"),
     "C07": ("exploration", "offline provenance oracle over the output with the sender's ground truth: every exported packet is attributed to its record / datagram by stream offset and its addresses, orientation and microsecond timestamp are checked against the input packets that carried it",
             "Random MAC/IP/port values including degenerate ones, all segmentation classes plus duplicated/reordered deliveries, six timestamp styles stressing float rounding; "
@@ -61,7 +61,7 @@ CHECKS = {
             TRUST, "3/C11"),
     "C15": ("exploration", "runtime monitors on key installation (Decryptor.__init__, QuicSession.set_initial_decryptor/set_tls_decryptors/check_key_epoch) inside real end-to-end runs, compared with hashlib/hmac reference key schedules",
             "Keys are observed where they are installed for a real connection, so the wiring session -> key_derivator -> decryptor is part of what is checked; every "
-            "(suite, version) of the frozen matrix with random secrets, QUIC connections with Retry, 0-RTT and several key-update generations, and histories of 2-3 connections in one process (a session and its resumptions, unrelated connections with equal or different suites; one capture or one per run() call) in which every connection must find its own key set installed.",
+            "(suite, version) of the frozen matrix with random secrets, QUIC connections with Retry, 0-RTT and several key-update generations, and histories of 2-3 connections in one process (a session and its resumptions, unrelated connections with equal or different suites; one capture or one per run() call) in which every connection must find its own key set installed; captures whose ServerHello flight precedes the ClientHello, where whatever is installed must be the connection's RFC key set.",
             "trusted: vlib.refkdf, checked against RFC 5869/9001 vectors at setup", "3/C15"),
     "C12": ("exploration", "metamorphic runtime oracle: byte equality of the output across 31-47 capture containers of the same packet list (pcapng LE/BE x if_tsresol x if_tsoffset x interspersed unrelated blocks incl. secrets blocks of other protocols x captures of 2-3 interfaces with their own clocks, an idle non-Ethernet first interface, files of 2-3 sections x secrets in a DSB; legacy pcap LE/BE, us and ns), generated scenes and the repository's real captures",
             "Timestamps are drawn from the grid every container of the group can represent, so equality is demanded only where the inputs are equal.",
@@ -84,7 +84,7 @@ CHECKS = {
             "random/mutated strings up to 1500 bytes.",
             "trusted: harness frame encoders (RFC 9000 sec. 19); the step bound is two orders of magnitude above observed maxima", "3/C17"),
     "C18": ("exploration", "digest equality of the output across fresh interpreters (PYTHONHASHSEED, working directory, environment, repetition) and across in-process repetition (run() for A then B vs. B alone)",
-            "Real subprocesses are used because fork() does not re-seed hashing; captures are built to exercise hash-ordered containers (several CIDs per side, zero-length and 1-byte CIDs).",
+            "Real subprocesses are used because fork() does not re-seed hashing; captures are built to exercise hash-ordered containers (several CIDs per side, zero-length and 1-byte CIDs); in-process pairs include earlier runs that fail, that log (-d), that select other ports, and commands that name the same input paths for other files (rewritten in place, or from another working directory).",
             TRUST, "3/C18"),
 }
 
